@@ -83,7 +83,7 @@ pub fn run(seed: u64, n: usize, outdir: &str, _corpus: Option<&str>) -> std::io:
             (0, gen_corpus(&mut rng))
         } else {
             // the tokenizer's MeCab-style output for a generated dictionary and sentence
-            let go = GenOpts { force_space: false, allow_uncovered: false, with_user: 30, tie_heavy: false, malformed: false };
+            let go = GenOpts { force_space: false, allow_uncovered: false, with_user: 30, tie_heavy: false, malformed: false, many_ids: false };
             let gd = gen_dict(&mut rng, &go);
             let sent = gen_sentence(&mut rng, &gd);
             let out = match gd.build() {
